@@ -533,4 +533,4 @@ def run_shard(ctx):
                 pass
         return t
 
-    ctx.run_given(mk, ctx.budget(48000, 1200000))
+    ctx.run_given(mk, ctx.budget(48000, 800000))
